@@ -2,6 +2,8 @@ package main
 
 import (
 	"fmt"
+	"runtime"
+	"sync"
 
 	"github.com/evolbioinfo/gotree/tree"
 )
@@ -41,9 +43,12 @@ func c17(c *Sexp) *Sexp {
 		}
 		runs := L()
 		for _, t := range trees {
-			runs.List = append(runs.List, c17one(r, t, nil, nil))
+			runs.List = append(runs.List, c17one(r, t, nil, nil, nil))
 		}
 		return L(KV("runs", runs))
+	}
+	if ts := c.Get("par"); ts != nil && ts.IsList {
+		return c17par(r, ts)
 	}
 	t, err := BuildTree(c.Get("tree"))
 	if err != nil {
@@ -51,6 +56,34 @@ func c17(c *Sexp) *Sexp {
 	}
 	if err := t.ReinitIndexes(); err != nil {
 		return L(KV("panic", A("reinit: "+err.Error())))
+	}
+	if c.Get("at") != nil {
+		// a second enumeration with the SAME rearranger value is started from inside the callback
+		// of the first one, while proposal number `at` is applied: on another tree (nested T2) or
+		// on the same tree object (nestedsame), i.e. on the neighbour itself
+		at := c.Int("at")
+		var t2 *tree.Tree
+		if n := c.Get("nested"); n != nil {
+			if t2, err = BuildTree(n); err != nil {
+				return L(KV("panic", A("build: "+err.Error())))
+			}
+			if err := t2.ReinitIndexes(); err != nil {
+				return L(KV("panic", A("reinit: "+err.Error())))
+			}
+		} else {
+			t2 = t
+		}
+		var inner *Sexp
+		outer := c17one(r, t, nil, nil, func(i int) {
+			if i == at {
+				inner = c17one(r, t2, nil, nil, nil)
+			}
+		})
+		runs := L(outer)
+		if inner != nil {
+			runs.List = append(runs.List, inner)
+		}
+		return L(KV("runs", runs))
 	}
 	var ops []string
 	if o := c.Get("ops"); o != nil && o.IsList {
@@ -76,13 +109,15 @@ func c17(c *Sexp) *Sexp {
 			ops = []string{"A", "U"}
 		}
 	}
-	return c17one(r, t, ops, collect)
+	return c17one(r, t, ops, collect, nil)
 }
 
 // c17one is the body of the loop `for t := range treechan` of cmd/nni.go.  A panic of the code
 // under test is recorded in the observation of this tree, the following trees still run with
 // the same rearranger value.
-func c17one(r *tree.NNIRearranger, t *tree.Tree, ops []string, collect []int) (obs *Sexp) {
+//
+// hook (plain Apply/Undo visits only) is called with the rank of the proposal while it is applied.
+func c17one(r *tree.NNIRearranger, t *tree.Tree, ops []string, collect []int, hook func(i int)) (obs *Sexp) {
 	defer func() {
 		if p := recover(); p != nil {
 			obs = L(KV("panic", A(c17panicStr(p))))
@@ -109,6 +144,9 @@ func c17one(r *tree.NNIRearranger, t *tree.Tree, ops []string, collect []int) (o
 			}
 			d, audit := ObserveTree(t)
 			props.List = append(props.List, L(KV("idx", I(idx)), KV("tree", d), KV("audit", audit), KV("nw", A(t.Newick()))))
+			if hook != nil {
+				hook(idx)
+			}
 			if operr = re.Undo(); operr != nil {
 				return false
 			}
@@ -177,6 +215,53 @@ func c17one(r *tree.NNIRearranger, t *tree.Tree, ops []string, collect []int) (o
 	final, faudit := ObserveTree(t)
 	return L(KV("err", A(errStr(operr))), KV("n", I(n)), KV("orig", orig), KV("nw0", A(nw0)),
 		KV("props", props), KV("final", final), KV("audit", faudit), KV("nwf", A(t.Newick())))
+}
+
+// c17par: ONE rearranger value shared by several goroutines, each enumerating the neighbourhood
+// of its own tree.  The enumerations are made to overlap: every goroutine waits inside its first
+// callback until all the others have reached theirs (or have finished), and yields in every callback.
+func c17par(r *tree.NNIRearranger, ts *Sexp) *Sexp {
+	trees := make([]*tree.Tree, 0, len(ts.List))
+	for _, s := range ts.List {
+		t, err := BuildTree(s)
+		if err != nil {
+			return L(KV("panic", A("build: "+err.Error())))
+		}
+		if err := t.ReinitIndexes(); err != nil {
+			return L(KV("panic", A("reinit: "+err.Error())))
+		}
+		trees = append(trees, t)
+	}
+	n := len(trees)
+	obs := make([]*Sexp, n)
+	var arrived sync.WaitGroup
+	arrived.Add(n)
+	all := make(chan struct{})
+	go func() { arrived.Wait(); close(all) }()
+	var done sync.WaitGroup
+	done.Add(n)
+	for k := range trees {
+		go func(k int) {
+			defer done.Done()
+			var once sync.Once
+			arrive := func() { once.Do(arrived.Done) }
+			defer arrive()
+			obs[k] = c17one(r, trees[k], nil, nil, func(i int) {
+				arrive()
+				<-all
+				runtime.Gosched()
+			})
+		}(k)
+	}
+	done.Wait()
+	runs := L()
+	for _, o := range obs {
+		if o == nil {
+			o = L(KV("panic", A("harness: no observation")))
+		}
+		runs.List = append(runs.List, o)
+	}
+	return L(KV("runs", runs))
 }
 
 func c17panicStr(p interface{}) string {
